@@ -201,6 +201,33 @@ def issubdtype(d, t):
     raise Unsupported("issubdtype(., %r)" % (t,))
 
 
+def can_cast(frm, to, casting="safe"):
+    """np.can_cast(from dtype, to dtype) under the 'safe' rule: no loss of information"""
+    import re as _re
+    if casting != "safe" or not (isinstance(frm, DT) and isinstance(to, DT)):
+        raise Unsupported("can_cast(%r, %r, %r)" % (frm, to, casting))
+
+    def split(d):
+        m = _re.match(r"(bool|u?int|float|complex)(\d*)$", d.name)
+        if not m:
+            raise Unsupported("can_cast with dtype %s" % d.name)
+        return m.group(1), int(m.group(2) or 8)
+    (fk, fb), (tk, tb) = split(frm), split(to)
+    if fk == "bool":
+        return True
+    if tk == "bool":
+        return False
+    if fk == tk:
+        return fb <= tb
+    if fk == "uint" and tk == "int":
+        return fb < tb
+    if fk in ("int", "uint") and tk == "float":
+        return fb <= 16 and tb >= 32 or fb <= 32 and tb >= 64 or (fb <= 8 and tb >= 16)
+    if fk in ("int", "uint", "float") and tk == "complex":
+        return True if fk != "float" else fb * 2 <= tb
+    return False
+
+
 class Result(Model):
     """what a numpy function returns on raw buffers"""
     kinds = ("ndarray",)
@@ -272,7 +299,7 @@ def hooks():
     return {
         "ext": {"numpy.require": lambda x, *a, **k: x, "numpy.ascontiguousarray": lambda x, *a, **k: x, "numpy.asarray": _as_array(False), "numpy.asanyarray": _as_array(False), "numpy.array": _as_array(True),
                 "numpy.ascontiguousarray": _as_array(True), "numpy.copy": _as_array(True),
-                "numpy.issubdtype": issubdtype,
+                "numpy.issubdtype": issubdtype, "numpy.can_cast": can_cast,
                 "numpy.reciprocal": lambda x: x, "numpy.amin": lambda x: x, "numpy.amax": lambda x: x},
         "globals": {"units/units.py::units": units_factory},
         "class": {},
